@@ -35,6 +35,7 @@ pub mod c15;
 pub mod c16;
 pub mod c17;
 pub mod c19;
+pub mod c20;
 pub mod shapes;
 pub mod common;
 
@@ -49,6 +50,7 @@ pub fn lookup(id: &str) -> Option<&'static dyn Prop> {
         "C16" => Some(&c16::C16),
         "C17" => Some(&c17::C17),
         "C19" => Some(&c19::C19),
+        "C20" => Some(&c20::C20),
         _ => None,
     }
 }
